@@ -1151,11 +1151,11 @@ theorem ListRel.and_mem {α β : Type} {R : α → β → Prop} {P : α → Prop
 def NameRel (bp bf : SecBuf) : Prop := bp.nameOff = bf.nameOff → bp.name = [] ∨ bp.name = bf.name
 
 theorem getString_none_data (b : SecBuf) (idx : BitVec 32) (h : b.data = none) : getString b idx = .ok none := by
-  unfold getString; rw [h]; rfl
+  rw [LoadTie.getString_hand, h]; rfl
 
 theorem getString_congr {bp bf : SecBuf} (hd : bp.data = bf.data) (hs : bp.size = bf.size) (idx : BitVec 32) :
     getString bp idx = getString bf idx := by
-  unfold getString; rw [hd, hs]
+  rw [LoadTie.getString_hand, LoadTie.getString_hand, hd, hs]
 
 theorem namesPure_names (c : Cls) (enc : Enc) (hdr : Bytes) (img : Bytes) (k : Nat) (kind : StreamKind)
     (hlen : img.length < 9223372036854775808) (lsp lsf : LoadSt) (secsp secsf : List SecBuf)
@@ -1307,8 +1307,7 @@ theorem namesPure_zero_names (c : Cls) (enc : Enc) (hdr : Bytes) (img : Bytes) (
         | zero _ hz' => rw [hz'.data] at hd; cases hd
         | never _ hdn _ => rw [hdn] at hd; cases hd
         | both hsf hdd _ _ _ =>
-          unfold getString
-          rw [hd]
+          rw [LoadTie.getString_hand, hd]
           dsimp only
           by_cases hsz : 0 < (secGetData c [] lsp bp).2.size.toNat
           · have h0 : d.head? = some 0 := hTd d (by rw [← hdd]; exact hd) (by rw [← hsf.size]; exact hsz)
